@@ -471,6 +471,8 @@ func main() {
 		modeGen(os.Args[2:])
 	case "witness":
 		modeWitness(os.Args[2:])
+	case "grid":
+		modeGrid(os.Args[2:])
 	case "testsuite":
 		modeTestsuite(os.Args[2:])
 	case "src":
